@@ -68,6 +68,8 @@ type Conn struct {
 	// have the content bytes received so far, n the size of this write. It returns how many bytes of this write the
 	// transport still accepts before failing, or -1 for no failure.
 	FailInData func(txn, have, n int) int
+	// BreakWrites makes every further client write fail with a connection reset (nothing is delivered).
+	BreakWrites bool
 	// Skew is added to the wall clock when deadlines are evaluated (virtual idle time).
 	Skew time.Duration
 	// InjectAfterStartTLS is appended in clear right after the 220 reply to STARTTLS (plaintext injection).
@@ -169,6 +171,10 @@ func (c *Conn) Write(p []byte) (int, error) {
 	}
 	if len(c.rq) > 0 && c.tlsSide == nil && !c.S.AwaitingTLS() {
 		c.S.illegal("write-before-reading-reply", c.lastPos(), "client wrote %q while %d reply bytes were still unread", clip(string(p)), len(c.rq))
+	}
+	if c.BreakWrites {
+		c.S.Closed = true
+		return 0, errors.New("write fakeconn: connection reset by peer")
 	}
 	var ferr error
 	if c.WriteStallAt >= 0 && c.Written+len(p) > c.WriteStallAt {
